@@ -16,6 +16,7 @@ VARIANTS = {
     "nostd": ["--no-default-features", "--features", "nostd"],
     "nolock": ["--no-default-features", "--features", "nolock"],
     "bundled": ["--features", "bundled"],
+    "stdcs": ["--features", "stdcs"],
 }
 
 
